@@ -154,6 +154,10 @@ class Gni(Stream):
                   'family': 'corpus-crossing'})
         c.append({'x': [0.01, 3.74, 0.03, 0.05, 0.04, 0.04, 0.02, -0.0, -0.01, 0.01, 0.0, 0.03, -0.07, -1.56], 'opts': dict(ril),
                   'family': 'corpus-crossing'})
+        # D-C04-int: the SD metric of the first iterate was evaluated in wrapping int16 arithmetic (repaired)
+        c.append({'x': [88.0, -169.0, 126.0, 55.0, -71.0, 176.0, 9.0, -15.0, -78.0, 276.0, 39.0, -338.0, 205.0, -28.0, 132.0, -71.0,
+                        457.0, -122.0, 13.0, 195.0], 'opts': {'stop_method': 'sd', 'sd_thresh': 0.5, 'max_iters': 50},
+                  'family': 'corpus-int16', 'dtype': 'int16'})
         return c
 
     def generate(self, rng, tier):
@@ -172,6 +176,24 @@ class Gni(Stream):
             if len(x) > 96 and o['max_iters'] > 50:
                 o['max_iters'] = 50
             yield {'x': S.fr_list(x), 'opts': o, 'family': fam}
+        # signals in very small / very large physical units (e.g. Tesla: 1e-13): the rules are ratios, no absolute scale enters
+        for i in range(300 if tier == 'thorough' else 30):
+            fam = rng.choice(['noise', 'walk', 'tones', 'amfm'])
+            n = rng.choice([12, 16, 24, 32, 48])
+            x = np.asarray(S.gen_signal(rng, fam, n), dtype=float) * rng.choice([1e-13, 1e-13, 1e-9, 1e9])
+            o = S.gen_opts(rng, tier, family=fam)
+            o['max_iters'] = min(o['max_iters'], 50)
+            yield {'x': S.fr_list(x), 'opts': o, 'family': fam + '-units'}
+        # signals stored as integers (counts, ADC units): the iteration and the stop rules are float arithmetic on their values
+        for i in range(400 if tier == 'thorough' else 40):
+            fam = rng.choice(['noise', 'walk', 'tones', 'amfm'])
+            n = rng.choice([12, 16, 24, 32, 48])
+            amp = rng.choice([30, 150, 400, 2000])
+            x0 = np.asarray(S.gen_signal(rng, fam, n), dtype=float)
+            x = np.clip(np.round(x0 / (np.max(np.abs(x0)) or 1.0) * amp), -32000, 32000)
+            o = S.gen_opts(rng, tier, family=fam)
+            o['max_iters'] = min(o['max_iters'], 50)
+            yield {'x': S.fr_list(x), 'opts': o, 'family': fam + '-int', 'dtype': rng.choice(['int64', 'int32', 'int16'])}
         # intermittent signals under the Rilling rule: cubic-spline envelopes overshoot and cross (upper < lower)
         nmax = 128 if tier == 'thorough' else 48
         for i in range(80 if tier == 'thorough' else 6):
@@ -194,9 +216,16 @@ class Gni(Stream):
     def impl(self, case):
         x, o = np.array(case['x'], dtype=float), case['opts']
         out = {}
+        # "all finite signals": the same values stored as integers (int64 / int32 / int16) are handed over in that type;
+        # the reference iteration below always runs on the float64 values
+        xs = x
+        if case.get('dtype'):
+            xs = x.astype(case['dtype'])
+            if not np.array_equal(xs.astype(float), x):
+                raise RuntimeError('harness: case values are not representable as %s' % case['dtype'])
         try:
             with S.time_limit(IMPL_TIMEOUT):
-                imf, flag = S.call_gni(x, o)
+                imf, flag = S.call_gni(xs, o)
             out['res'] = {'imf': S.fr_list(np.asarray(imf).ravel()), 'shape': list(np.asarray(imf).shape), 'flag': bool(flag)}
         except Exception as e:  # noqa
             out['res'] = {'error': err_kind(e), 'msg': str(e)[:200]}
@@ -371,7 +400,8 @@ class Gni(Stream):
         o = case['opts']
         t = ['family=' + case['family'], 'stop=' + o['stop_method'], 'interp=' + o['interp_method'], 'pad=%d' % o['pad_width'],
              'maxit=%d' % o['max_iters'], 'step=%s' % ('1' if o['env_step_size'] == 1 else '<1'),
-             'energy=%s' % o['energy_thresh'], 'n=%s' % ('<=8' if len(case['x']) <= 8 else '<=16' if len(case['x']) <= 16 else '>16')]
+             'energy=%s' % o['energy_thresh'], 'n=%s' % ('<=8' if len(case['x']) <= 8 else '<=16' if len(case['x']) <= 16 else '>16'),
+             'stored-as=%s' % (case.get('dtype') or 'float64')]
         if isinstance(out, ImplError):
             return t
         if '_skip' in out:
